@@ -14,6 +14,7 @@ import (
 	"github.com/cosmos/cosmos-sdk/simapp"
 	sdk "github.com/cosmos/cosmos-sdk/types"
 	authtypes "github.com/cosmos/cosmos-sdk/x/auth/types"
+	banktypes "github.com/cosmos/cosmos-sdk/x/bank/types"
 	govtypes "github.com/cosmos/cosmos-sdk/x/gov/types"
 	"github.com/ethereum/go-ethereum/common"
 	"github.com/gogo/protobuf/proto"
@@ -158,7 +159,16 @@ func newHist(id string, rng *rand.Rand, l *clog, thorough bool, genesisOnly bool
 	accs := []*core.Account{h.a0, h.u1, h.u2}
 	h.coins = []string{"acoin", "bcoin", "ccoin", "dcoin", ac.IBCCoin}
 	funded := append(append([]string{}, h.coins...), "reward/x-1", longDenom128)
-	fund := ac.FundGenesis(accs, funded, ac.UserFunds)
+	fundCoins := ac.FundGenesis(accs, funded, ac.UserFunds)
+	// x/bank already describes two of the funded coins (chains list their coins in bank genesis): "dcoin" exactly the way an honest
+	// proposal describes it, "ccoin" with alias lists that strictly extend the proposal's
+	fund := func(tp *app.Teleport, g simapp.GenesisState) {
+		fundCoins(tp, g)
+		var bg banktypes.GenesisState
+		tp.AppCodec().MustUnmarshalJSON(g[banktypes.ModuleName], &bg)
+		bg.DenomMetadata = append(bg.DenomMetadata, storedMetadata("ccoin", true), storedMetadata("dcoin", false))
+		g[banktypes.ModuleName] = tp.AppCodec().MustMarshalJSON(&bg)
+	}
 
 	var plan *genesisPlan
 	useGen := genesisOnly || rng.Intn(4) == 0
